@@ -71,9 +71,19 @@ def r2_dynamic_rows(ctx):
         rep.ob('C16.R2', ctx.loc(f, tables[0].node.ast), '%s in %s' % (need_m, tname), ok,
                'dynamic side collects %s' % why if ok else 'the dynamic collector ignores %s, which the static collector records' % why, anchor=DYN)
 
+    # the table under its own name and under plain copies of it (`valid_func_types = _VALID_FUNC_TYPES`)
+    tnames = {tname}
+    grew = True
+    while grew:
+        grew = False
+        for d in rd.defs:
+            if d.kind == 'assign' and isinstance(d.value, ast.Name) and d.value.id in tnames and d.name not in tnames and len(rd.defs_of(d.name)) == 1:
+                tnames.add(d.name)
+                grew = True
+
     def is_table_test(fa):
         e = fa.expr
-        return isinstance(e, ast.Call) and is_name(e.func, 'isinstance') and len(e.args) == 2 and is_name(e.args[1], tname)
+        return isinstance(e, ast.Call) and is_name(e.func, 'isinstance') and len(e.args) == 2 and isinstance(e.args[1], ast.Name) and e.args[1].id in tnames
 
     def is_type_test(fa):
         e = fa.expr
